@@ -235,6 +235,37 @@ def run(ctx):
     simulate("sim:3calls-nofault", c3, nsim // 3, initvals=(41,), foreign=1, jump=1, fault=0, restart=0)
     gen_counts["simulated"] = nsim + nsim // 3
 
+    # free schedules: every order in which the KV requests of the calls can be served, whatever requests the code
+    # issues (token = "the next pending request of that call"; a call's first token starts it). Unlike the families
+    # above these do not presuppose the model's request pattern, so a change that adds or reorders requests is
+    # explored under the same interleavings; the monitor judges the numbers returned.
+    import itertools
+
+    def free(origin, clients, length, inits, limit=None, rng=None):
+        seqs = list(itertools.product(clients, repeat=length))
+        if limit and len(seqs) > limit:
+            seqs = rng.sample(seqs, limit)
+        k = 0
+        for init in inits:
+            for seq in seqs:
+                started, steps = set(), []
+                for c in list(seq) + [c for c in clients for _ in range(3)]:
+                    if c in started:
+                        steps.append({"a": "Go", "c": c})
+                    else:
+                        started.add(c)
+                        steps.append({"a": "Start", "c": c})
+                add(dict(init), steps, origin)
+                k += 1
+        return k
+
+    import random as _random
+    frng = _random.Random(ctx.seed * 977 + 1)
+    absent = {"present": False, "val": 0, "idx": 0, "gidx": 7}
+    present = {"present": True, "val": 41, "idx": 7, "gidx": 7}
+    gen_counts["free:2calls"] = free("free:2calls", c2, 6 if quick else 8, [absent, present])
+    gen_counts["free:3calls"] = free("free:3calls", c3, 8 if quick else 9, [absent, present], limit=150 if quick else 3000, rng=frng)
+
     # ---------------- 3. replay on the real code ----------------
     binp = ctx.build("runcounter")
     scn_file = ctx.path("scenarios.ndjson")
